@@ -40,6 +40,10 @@ def build_plan(choice: Choice, tier):
             n = max(0, p["workers"] - 1 + d(3, "items.nearworkers") - 1)
         else:
             n = d(41 if thorough else 15, "items")
+        if c == 0 and d(16, "items.many") == 15:
+            # a long call with single-item chunks: more results outstanding than any small constant bound
+            n = [65, 70, 130, 260][d(4, "items.many.n")] * min(2, p["workers"])
+            call["chunk"] = 1
         call["n"] = n
         call["lazy"] = d(3, "lazy") == 2
         call["input_type"] = ["list", "tuple", "iterator", "range-like", "list"][d(5, "input.type")]
